@@ -124,6 +124,88 @@ CHECKS = {
         "Not decided: maximality of components; value equality of the "
         "recomposed graph.",
         "DESIGN.md 3/C17"),
+    "C07": (
+        "geometric-kind abstract interpretation (point / vector / "
+        "pseudo-vector / scalar / pseudo-scalar) + position-vs-identifier "
+        "rule + symmetry rule",
+        "For the five geometric primitives and the five perception functions: "
+        "coordinates are used only through differences of rows, every "
+        "decision is a scalar, every chiral parity a pseudo-scalar, achiral "
+        "descriptors get the literal 0, descriptor atoms are identifiers. In "
+        "exact arithmetic off the thresholds this proves translation / "
+        "rotation invariance and reflection = enantiomer for an unchanged "
+        "atom order. Known finding: are_planar is not symmetric in its "
+        "points (F17).",
+        "Not decided: invariance under reordering of the input atoms, "
+        "thresholds, axial / trans-pair heuristics, sign conventions.",
+        "DESIGN.md 3/C07"),
+    "C08": (
+        "finite decision tables extracted from the AST and enumerated by "
+        "constant folding (bond membership 2x2, 4 roles, 64+16 descriptor "
+        "scenarios)",
+        "Exhaustive over the finite tables: from_graphs classifies bonds by "
+        "membership; reactant()/product()/_ts() keep the right roles "
+        "(following helper delegation); reverse_reaction swaps FORMED/BROKEN "
+        "through set_bond_attribute for bonds and inside both change "
+        "dictionaries; for all 80 (reactant, product, TS) descriptor "
+        "scenarios overlay(static, broken) = reactant and overlay(static, "
+        "formed) = product.",
+        "Not decided: set equalities as values; reversing twice identical as "
+        "a behaviour.",
+        "DESIGN.md 3/C08"),
+    "C12": (
+        "constant folding over index tuples of the importer + orbit "
+        "computations on the literal tables; identifier-kind rule",
+        "Exhaustive on the tables as the importer uses them: SP / TB / OH "
+        "labels are transversals (3, 20, 30 pairwise unequal descriptors = "
+        "n!/|G|), CW/CCW map to opposite parities, E/Z to unequal orderings; "
+        "all 13 descriptor constructions and all atoms/bonds use "
+        "id_atom_map.",
+        "Not decided: invariance under RDKit renumbering / SMILES spelling "
+        "(RDKit's neighbour order and tag semantics).",
+        "DESIGN.md 3/C12"),
+    "C13": (
+        "table-level round trip: exporter label choice and importer reading "
+        "folded from the source and composed for every neighbour order and "
+        "parity",
+        "Exhaustive at table level (24 SP + 240 TB + 48 + 48 tetrahedral + "
+        "2 OH cells): the re-imported descriptor equals the exported one "
+        "under the literal permutation groups; labels are chosen by "
+        "descriptor equality; export has no write effect on the graph; "
+        "set_bond_orders indexes dictionaries by the right kind.",
+        "Trusted: RDKit keeps bond-insertion neighbour order and carries "
+        "tags / labels / atom-map numbers. Not decided: E/Z after bond-order "
+        "regeneration, RDKit's own semantics.",
+        "DESIGN.md 3/C13"),
+    "C15": (
+        "writer/reader schema agreement (sections per class guard, enum "
+        "exhaustiveness, registries, payload form)",
+        "Structural and complete for the schema: 9 sections agree under "
+        "their guards, every Change member has a written and read bond "
+        "section excluded from the plain one, role names agree, both "
+        "registries are complete, the payload carries (class, atoms, parity) "
+        "and is restored None-preservingly.",
+        "Trusted: json round-trips lists, ints, None and strings.",
+        "DESIGN.md 3/C15"),
+    "C18": (
+        "who-writes / pairing analysis of bond_orders.py + dictionary-kind "
+        "rule in set_bond_orders",
+        "The only matrix element stores are adjacent symmetric += 1 pairs "
+        "over pairs selected under AC[i, j] == 1; matrices are copies of AC; "
+        "returned matrices are AC / BO / best_BO: by induction symmetric, "
+        "integer, >= AC, positive exactly on bonded pairs.",
+        "The chemical part (octets, valences, order independence) is an "
+        "algorithmic search: not decided.",
+        "DESIGN.md 3/C18"),
+    "C20": (
+        "writer/reader format agreement + shape rules for connectivity",
+        "Header lines = skiprows; one >= 8-decimal format for x, y, z; "
+        "comments disabled; at least 1-d result; strict upper triangle; "
+        "symmetric cut-off table; strict <; 1.2 x sum of radii; complete "
+        "radii table; distances from coordinate differences only.",
+        "Not decided: decimal round trip of floats; permutation "
+        "equivariance as a value.",
+        "DESIGN.md 3/C20"),
     "C09": (
         "effect analysis by abstract interpretation of every reader x class "
         "+ paired-update / purge / key-centre rules on the mutators",
